@@ -35,10 +35,10 @@ def items_of(kind, obj):
     return []
 
 
-def real_side(kind, v, wide=False, vpstyle=0, tail=SENTINEL):
+def real_side(kind, v, wide=False, vpstyle=0, tail=SENTINEL, prov=None):
     r = dict(stage="build")
     try:
-        obj = A.build(kind, v, wide=wide, vpstyle=vpstyle)
+        obj = A.build(kind, v, wide=wide, vpstyle=vpstyle, prov=prov)
         r["stage"] = "abs0"
         r["abs0"] = A.norm(A.absv(kind, obj))
         r["stage"] = "nbytes"
